@@ -159,11 +159,15 @@ static void check_failure_report(vf_result *r, const char *who, int e,
 {
     char sig[120];
 
-    if (!(e == EBADMSG || e == ENOPROTOOPT || e == EINVAL || e == ENOMEM)) {
+    /* what is wrong with the bytes of a file is a syntax or version
+       error (or the system's): EINVAL is for the caller's own arguments,
+       and every loader here is called with valid ones */
+    if (!(e == EBADMSG || e == ENOPROTOOPT || e == ENOMEM)) {
 	snprintf(sig, sizeof(sig), "errno:%s", who);
-	vf_fail(r, sig, "%s failed with errno %d (%s); vnaerr(3) promises "
-		"EBADMSG, ENOPROTOOPT, EINVAL or a system errno; input \"%s\"",
-		who, e, strerror(e), g_inesc);
+	vf_fail(r, sig, "%s failed with errno %d (%s): %s; the content of "
+		"a file is refused with EBADMSG, ENOPROTOOPT or a system "
+		"errno; input \"%s\"", who, e, strerror(e),
+		log->count ? log->msg[0] : "(no message)", g_inesc);
 	return;
     }
     if (log->nonwarn < 1) {
